@@ -48,6 +48,7 @@ Vocab ==
     [k |-> "regex", ast |-> RXAST, fold |-> FALSE, text |-> RX!Concrete(RXAST, "emacs")], \* -regex '.*/[el].'
     [k |-> "print", delim |-> 10, file |-> 1],                                           \* -fprint F1
     [k |-> "gopt", o |-> "depth"], [k |-> "gopt", o |-> "maxdepth", n |-> 1],           \* -depth, -maxdepth 1 inside the expression
+    [k |-> "exec", c |-> "false"],                                                       \* -exec false ;
     [k |-> "prune"], [k |-> "quit"], [k |-> "print", delim |-> 0],
     [k |-> "printf", fmt |-> <<37, 121, 37, 109, 58, 37, 80, 92, 110>>] }            \* -printf '%y%m:%P\n'
 
@@ -76,6 +77,10 @@ NoCutLaw ==
 DefaultPrintLaw ==
   (picked /\ ok /\ words # <<>> /\ ~SemHasAction(words) /\ ~\E i \in DOMAIN words : words[i].k \in {"prune", "quit"}) =>
      out = Flatten([k \in DOMAIN U |-> IF SEval(SemParse(words).ast, words, TREE, ecfg, <<100>>, U[k]).v THEN U[k].path \o <<10>> ELSE <<>>])
+\* an action that writes nothing still counts: with -exec somewhere - nested, negated or never reached - and no
+\* output action, nothing at all is printed
+SilentActionLaw ==
+  (picked /\ ok /\ (\E i \in DOMAIN words : words[i].k = "exec") /\ ~\E i \in DOMAIN words : IsOutput(words[i])) => out = <<>>
 \* -prune changes nothing under -depth
 PruneDepthLaw ==
   (picked /\ ok /\ ecfg.depth) =>
@@ -100,7 +105,7 @@ VecWords == [i \in DOMAIN words |-> IF words[i].k = "regex" THEN [k |-> "regex",
 FileLaw ==
   (picked /\ ok) =>
      LET std == [i \in DOMAIN words |-> IF IsAction(words[i]) /\ ChanOf(words[i]) = 1 THEN [k |-> "print", delim |-> 10, file |-> 0] ELSE
-                                         IF IsAction(words[i]) THEN [k |-> "const", v |-> TRUE] ELSE words[i]]
+                                         IF IsOutput(words[i]) THEN [k |-> "const", v |-> TRUE] ELSE words[i]]
      IN (\E i \in DOMAIN words : IsAction(words[i]) /\ ChanOf(words[i]) = 1) => res.outs[1] = FindOutput(std, TREE, cfg, roots)
 \* without a missing starting point or a loop nothing is diagnosed
 NoErrLaw == picked /\ ok => res.errs = 0
